@@ -4,8 +4,10 @@
   source shape is not recognised is `none` and nothing is claimed about it (the
   behaviour-level tie through Bio/Generated/Tables.lean and the correspondence
   run remains); a fact that IS extracted must agree with the model and with the
-  observed behaviour.  Re-checked by `decide` on every run.
+  observed behaviour.  `holdsIfFound o p` is `true` for `none` and `p x` for
+  `some x`; every theorem is closed by `decide` whichever it is.
 -/
+import Bio.Lemmas.SrcFacts
 import Bio.Model.Align
 import Bio.Generated.Src
 namespace Bio.SrcFacts
@@ -13,8 +15,8 @@ open Bio.Generated
 
 /-- The gap symbol and the step encoding the driver protocol uses. -/
 theorem align_consts :
-    (∀ g, Src.alignGap = some g → g = Bio.Align.GAP.toNat) ∧ (∀ v, Src.stepMatch = some v → v = 1) ∧
-    (∀ v, Src.stepDeletion = some v → v = 2) ∧ (∀ v, Src.stepInsertion = some v → v = 3) := by
+    holdsIfFound Src.alignGap (· == Bio.Align.GAP.toNat) = true ∧ holdsIfFound Src.stepMatch (· == 1) = true ∧
+    holdsIfFound Src.stepDeletion (· == 2) = true ∧ holdsIfFound Src.stepInsertion (· == 3) = true := by
   decide
 
 end Bio.SrcFacts
